@@ -16,6 +16,7 @@ import (
 	"os"
 	"os/exec"
 	"path/filepath"
+	"strings"
 	"sync"
 
 	"github.com/monstermichl/typeshell/transpiler"
@@ -68,6 +69,14 @@ func mainFile(root, prog, tag string) string {
 		os.MkdirAll(dir, 0o755)
 		os.WriteFile(filepath.Join(dir, "main.tsh"), []byte(mutMain), 0o644)
 		os.WriteFile(filepath.Join(dir, "util.tsh"), []byte(u), 0o644)
+		return filepath.Join(dir, "main.tsh")
+	}
+	// gen<k>: distinct small programs written on demand (long histories: pools, rings and caches of fixed size)
+	if strings.HasPrefix(prog, "gen") {
+		dir := filepath.Join(root, "gen", tag, prog)
+		os.MkdirAll(dir, 0o755)
+		k := strings.TrimPrefix(prog, "gen")
+		os.WriteFile(filepath.Join(dir, "main.tsh"), []byte("import \"strings\"\n\nfunc f"+k+"(n int) int {\n\treturn n + "+k+"\n}\nv := f"+k+"("+k+")\nprint(v, strings.Repeat(\"g"+k+"\", 2))\n"), 0o644)
 		return filepath.Join(dir, "main.tsh")
 	}
 	return filepath.Join(root, prog, "main.tsh")
